@@ -238,6 +238,12 @@ class Monitor:
                 kind, key = 'le_rrf_complete', int.from_bytes(data[5:7], 'little') & 0x0FFF
         if kind is None:
             return
+        if kind == 'disc_complete' and len(data) > 3 and data[3] == 0:
+            # the connection is gone (its handle may be given to a new connection later): remember it on the procedures still
+            # pending on that handle, they can no longer be judged by looking the handle up at the end
+            for e in self.expect:
+                if e[2] == key and e[1] in ('rrsf_complete', 'rref_complete', 'le_rrf_complete', 'enc_change') and 'conn-gone' not in e[4:]:
+                    e.append('conn-gone')
         for e in self.expect:
             if e[1] == kind and (e[2] is None or e[2] == key):
                 self.expect.remove(e)
@@ -275,7 +281,7 @@ class Monitor:
             if kind == 'conn_complete' and key in self.classic_cancel:
                 situation += ':cancelled'
             if situation == 'handle=live':
-                situation += ':' + self.end_state(key)
+                situation += ':' + ('conn=gone' if 'conn-gone' in e[4:] else self.end_state(key))
             self.sim.violation_once(f'proc:{nm}:{situation}', f'procedure-not-concluded:{nm}:{situation}', f'{nm} accepted (Command Status 0) but its completion event never arrived')
 
 
